@@ -225,6 +225,10 @@ impl Device {
         if addr + len > MEM {
             return false;
         }
+        // an ESC without distributed clocks has no DC register block
+        if !self.dc.supported && overlaps(addr, len, 0x0900, 0x100) {
+            return false;
+        }
         self.accesses += 1;
         // computed registers are refreshed into memory first
         if overlaps(addr, len, R_SUPPORT, 2) {
@@ -292,6 +296,9 @@ impl Device {
     pub fn write(&mut self, addr: usize, data: &[u8], cmd: u8, frame_no: u64) -> bool {
         let len = data.len();
         if addr + len > MEM {
+            return false;
+        }
+        if !self.dc.supported && overlaps(addr, len, 0x0900, 0x100) {
             return false;
         }
         self.accesses += 1;
